@@ -72,6 +72,8 @@ def reader_part(tier, events, metas):
         # every fifth batch is over the feature-less categories both grammars combine: the same (parent, left, right) triples are
         # then read under English and under Japanese in one process, in alternation
         b = trees.make_batch(rng, lang, awkward=0.2, exclude='\\()', licensed_p=0.9, lexicon=trees.SHARED_LEXICON if it % 5 == 2 else None)
+        if it % 10 == 7:
+            b = trees.twin_batch(rng, lang) or b
         if it % 4 == 0:
             pool = [enc.parse_text(s) for s in (trees.EN_LEXICON if lang == 'en' else trees.JA_LEXICON)]
             for sent in b:
